@@ -1,9 +1,12 @@
 /-
 Model of `ear.fileio.bw64.reader.Bw64Reader.__init__` and the chunk accessors on a
 `BytesIO` (C09 / C17).  Exceptions are `Err` values, `warnings.warn` calls are collected
-in a list.  Core Lean only.
+in a list.  The sample-level part at the end (`openReader`, `framesAt`, `readSamples`) joins this
+model with the cursor model (`Model/Bw64Cursor.lean`) and the PCM model (`Model/Pcm.lean`).
+Core Lean only.
 -/
 import Earverif.Model.Bw64Writer
+import Earverif.Model.Bw64Cursor
 
 namespace Earverif.Bw64
 
@@ -260,5 +263,39 @@ def readFile (f : Bytes) : Except Err (Parsed × List Warn) :=
     match readChunks f ds (f.length + 1) p [] [] with
     | .error e => .error e
     | .ok (t, w) => finishRead f ff ds t w
+
+/-! ### the opened reader: parse result plus the constants its cursor methods use -/
+
+/-- `Bw64Reader(BytesIO(f))`: the parse result of `readFile` together with the constants `seek`/`tell`/
+`read`/`__len__` consult afterwards (`Cursor.Cfg`): `_chunks[b'data'].position.data`,
+`formatInfo.blockAlignment`, `_chunks[b'data'].size` (for RF64/BW64 `_read_chunk_header` has already
+replaced it by `ds64.dataSize`, which is also what `__len__` divides) and `_file_len`.
+The buffer is left at `position.data` (`self.seek(0)`). -/
+def openReader (f : Bytes) : Except Err (Parsed × Cursor.Cfg × List Warn) :=
+  match readHead f with
+  | .error e => .error e
+  | .ok (ff, ds, p) =>
+    match readChunks f ds (f.length + 1) p [] [] with
+    | .error e => .error e
+    | .ok (t, w) =>
+      match finishRead f ff ds t w with
+      | .error e => .error e
+      | .ok (pr, w') =>
+        match tlookup t idData with
+        | some (dsz, dpos) =>
+          .ok (pr, ⟨((dpos + 8 : Nat) : Int), ((pr.fmt.channels * pr.fmt.bits / 8 : Nat) : Int), (dsz : Int),
+                    (f.length : Int)⟩, w')
+        | none => .error .missingChunk
+
+/-- `deinterleave(decode_pcm_samples(rawData, bitdepth), channels)` for the `count` bytes at offset
+`start`; `none` = numpy raises. -/
+def framesAt (f : Bytes) (bits ch : Nat) (start count : Nat) : Option (List (List Rat)) :=
+  (Pcm.decodeBytes bits (readAt f start count)).bind (Pcm.deinterleave ch)
+
+/-- `Bw64Reader.read(n)` with the buffer at `pos`: the new buffer position (`Cursor.read`) and the
+sample block returned. -/
+def readSamples (f : Bytes) (fm : RFmt) (k : Cursor.Cfg) (pos n : Int) : Int × Option (List (List Rat)) :=
+  let r := Cursor.read k pos n
+  (r.1, framesAt f fm.bits fm.channels r.2.1.toNat r.2.2.toNat)
 
 end Earverif.Bw64
